@@ -569,6 +569,13 @@ func (vfs *MemFS) OpenFile(name string, flag int, perm fs.FileMode) (avfs.File, 
 	at := int64(0)
 	om := avfs.ToOpenMode(flag)
 
+	// fom is the mode of the file handle : writing needs O_WRONLY or O_RDWR,
+	// whatever permissions O_CREATE or O_TRUNC needed to open the file.
+	fom := om
+	if flag&(os.O_WRONLY|os.O_RDWR) == 0 {
+		fom &^= avfs.OpenWrite
+	}
+
 	parent, child, pi, err := vfs.searchNode(name, slmEval)
 	if err != vfs.err.FileExists && !vfs.isNotExist(err) || !pi.IsLast() {
 		return (*MemFile)(nil), &fs.PathError{Op: op, Path: name, Err: err}
@@ -597,7 +604,7 @@ func (vfs *MemFS) OpenFile(name string, flag int, perm fs.FileMode) (avfs.File, 
 				name:     name,
 				absPath:  pi.Path(),
 				at:       at,
-				openMode: om,
+				openMode: fom,
 			}
 
 			return f, nil
@@ -648,7 +655,7 @@ func (vfs *MemFS) OpenFile(name string, flag int, perm fs.FileMode) (avfs.File, 
 		name:     name,
 		absPath:  pi.Path(),
 		at:       at,
-		openMode: om,
+		openMode: fom,
 	}
 
 	return f, nil
